@@ -670,3 +670,73 @@ def guards_to_chain(fnode):
     fn.body = block(fn.body)
     ast.fix_missing_locations(fn)
     return fn
+
+
+def while_to_for(fnode):
+    """counting while loops as the range loops they are (on a copy):
+         i = A                                  i = A
+         while i < B: BODY; i = i + 1     ->    for i in range(A, B): BODY
+         while i < B: i = i + 1; BODY     ->    for i in range(A + 1, B + 1): BODY
+       (`<=` adds one to the stop).  Only when the counter is written nowhere else in the loop, the bound is not written in the loop, and the body has no
+       break / continue; the value of the counter after the loop must not be read."""
+    import copy
+    fn = copy.deepcopy(fnode)
+
+    def incr_of(st, name):
+        if isinstance(st, ast.AugAssign) and isinstance(st.target, ast.Name) and st.target.id == name and isinstance(st.op, ast.Add) and isinstance(st.value, ast.Constant) and st.value.value == 1:
+            return True
+        if isinstance(st, ast.Assign) and len(st.targets) == 1 and isinstance(st.targets[0], ast.Name) and st.targets[0].id == name and isinstance(st.value, ast.BinOp) \
+                and isinstance(st.value.op, ast.Add):
+            l, r = st.value.left, st.value.right
+            return (isinstance(l, ast.Name) and l.id == name and isinstance(r, ast.Constant) and r.value == 1) or (isinstance(r, ast.Name) and r.id == name and isinstance(l, ast.Constant) and l.value == 1)
+        return False
+
+    def plus(e, k):
+        if k == 0:
+            return e
+        if isinstance(e, ast.Constant) and isinstance(e.value, int):
+            return ast.Constant(value=e.value + k)
+        return ast.BinOp(left=e, op=ast.Add(), right=ast.Constant(value=k))
+
+    def block(stmts):
+        out = []
+        k = 0
+        while k < len(stmts):
+            st = stmts[k]
+            for fld in ('body', 'orelse', 'finalbody'):
+                b = getattr(st, fld, None)
+                if isinstance(b, list) and b and isinstance(b[0], ast.stmt):
+                    setattr(st, fld, block(b))
+            done = False
+            if isinstance(st, ast.While) and not st.orelse and isinstance(st.test, ast.Compare) and len(st.test.ops) == 1 and isinstance(st.test.ops[0], (ast.Lt, ast.LtE)) \
+                    and isinstance(st.test.left, ast.Name) and out and isinstance(out[-1], ast.Assign) and len(out[-1].targets) == 1 and isinstance(out[-1].targets[0], ast.Name) \
+                    and out[-1].targets[0].id == st.test.left.id and len(st.body) >= 2:
+                name = st.test.left.id
+                bound = st.test.comparators[0]
+                body = st.body
+                first, last = incr_of(body[0], name), incr_of(body[-1], name)
+                rest = body[1:] if first else body[:-1] if last else None
+                bnames = {x.id for x in ast.walk(bound) if isinstance(x, ast.Name)}
+                clean = rest is not None and first != last \
+                    and not any(isinstance(x, (ast.Break, ast.Continue)) for q in rest for x in ast.walk(q)) \
+                    and not any(isinstance(x, ast.Name) and isinstance(x.ctx, ast.Store) and (x.id == name or x.id in bnames) for q in rest for x in ast.walk(q)) \
+                    and not any(isinstance(x, ast.Name) and x.id == name for q in stmts[k + 1:] for x in ast.walk(q))
+                if clean:
+                    start = out[-1].value
+                    extra = 1 if isinstance(st.test.ops[0], ast.LtE) else 0
+                    shift = 1 if first else 0
+                    rng = ast.Call(func=ast.Name(id='range', ctx=ast.Load()), args=[plus(start, shift), plus(bound, shift + extra)], keywords=[])
+                    if isinstance(rng.args[0], ast.Constant) and rng.args[0].value == 0:
+                        rng.args = rng.args[1:]
+                    loop = ast.For(target=ast.Name(id=name, ctx=ast.Store()), iter=rng, body=rest, orelse=[])
+                    ast.copy_location(loop, st)
+                    out.pop()
+                    out.append(loop)
+                    done = True
+            if not done:
+                out.append(st)
+            k += 1
+        return out
+    fn.body = block(fn.body)
+    ast.fix_missing_locations(fn)
+    return fn
